@@ -404,12 +404,17 @@ class Expr:
 
         out_typ = left.typ
 
-        if isinstance(op, vy_ast.BitAnd):
-            return IRnode.from_list(["and", left, right], typ=out_typ)
-        if isinstance(op, vy_ast.BitOr):
-            return IRnode.from_list(["or", left, right], typ=out_typ)
-        if isinstance(op, vy_ast.BitXor):
-            return IRnode.from_list(["xor", left, right], typ=out_typ)
+        if isinstance(op, (vy_ast.BitAnd, vy_ast.BitOr, vy_ast.BitXor)):
+            # evaluate operands left-to-right (IR evaluates opcode args
+            # right-to-left, so cache them in order first)
+            with left.cache_when_complex("x") as (b1, x), right.cache_when_complex("y") as (b2, y):
+                if isinstance(op, vy_ast.BitAnd):
+                    ret = ["and", x, y]
+                elif isinstance(op, vy_ast.BitOr):
+                    ret = ["or", x, y]
+                else:
+                    ret = ["xor", x, y]
+                return IRnode.from_list(b1.resolve(b2.resolve(ret)), typ=out_typ)
 
         if isinstance(op, vy_ast.LShift):
             new_typ = left.typ
@@ -538,11 +543,17 @@ class Expr:
                 return self.build_in_comparator()
             else:
                 assert isinstance(right.typ, FlagT), right.typ
-                intersection = ["and", left, right]
-                if isinstance(self.expr.op, vy_ast.In):
-                    return IRnode.from_list(["iszero", ["iszero", intersection]], typ=BoolT())
-                elif isinstance(self.expr.op, vy_ast.NotIn):
-                    return IRnode.from_list(["iszero", intersection], typ=BoolT())
+                # evaluate operands left-to-right (see handle_binop)
+                with (
+                    left.cache_when_complex("l") as (b1, l),
+                    right.cache_when_complex("r") as (b2, r),
+                ):
+                    intersection = ["and", l, r]
+                    if isinstance(self.expr.op, vy_ast.In):
+                        ret = ["iszero", ["iszero", intersection]]
+                    else:
+                        ret = ["iszero", intersection]
+                    return IRnode.from_list(b1.resolve(b2.resolve(ret)), typ=BoolT())
 
         if isinstance(self.expr.op, vy_ast.Gt):
             op = "sgt"
@@ -592,7 +603,9 @@ class Expr:
                 self.expr.op,
             )
 
-        return IRnode.from_list([op, left, right], typ=BoolT())
+        # evaluate operands left-to-right (see handle_binop)
+        with left.cache_when_complex("l") as (b1, l), right.cache_when_complex("r") as (b2, r):
+            return IRnode.from_list(b1.resolve(b2.resolve([op, l, r])), typ=BoolT())
 
     def parse_BoolOp(self):
         values = []
